@@ -27,12 +27,20 @@ def run(ck: Check):
             for cfg in cfgs[:2]:
                 ex.dfs(strategy, cfg, tc, stream=strategy, max_runs=40 if quick else 300)
     # every testcase class (an override of rmslice/copy in a subclass must behave the same): loaded files
-    loaded = {"jsstr": [b'f("ab", "cd", "K", "e", "gh");\n', b"x = 'a' + \"bc\";\n'\\x41\\u1234';\n", b'"a""b""c"'],
+    loaded = {"jsstr": [b'f("ab", "cd", "K", "e", "gh");\n', b"x = 'a' + \"bc\";\n'\\x41\\u1234';\n", b'"a""b""c"',
+                        # an opening quote that is never closed, with escaped quotes of the same kind after it
+                        b'var t = "it\\"s broken;\n', b"'a\\'b 'c' d\\'e", b'"ok" + "x\\"y'],
               "attrs": [b'<a b="c" d e=f><g h=\'i\' j>\n', b"<x y z=1><w v u>"],
               "symbol": [b"a;b;c{d}e;\n", b"f(x);g[1]=2;\n"], "char": [b"abcdef", b"DDBEGIN\nxyz\nDDEND\n"],
               "line": [b"DDBEGIN\na\nb\nc\nDDEND\n", b"a\r\nb\r\nc\r\n", b"x\ry\rz\x0b\xc2\x85w"]}
+    from common import run_model
+    from splitx import impl_load, model_load_line
+    lcases, limpl = [], []
     for atom, datas in loaded.items():
         for data in datas:
+            # which parts are reducible at all is the loader's decision: the loaded testcase must be the model's
+            lcases.append(model_load_line(atom, data))
+            limpl.append(impl_load(atom, data)[0])
             for strategy in ("minimize", "minimize-around", "minimize-balanced"):
                 ex.dfs(strategy, {}, None, file0=data, atom=atom, load=True, stream=f"loaded-{atom}",
                        max_runs=40 if quick else 400)
@@ -41,6 +49,13 @@ def run(ck: Check):
                     v = "Y" + "".join("Y" if rr.random() < bias else "N" for _ in range(400))
                     ex.one(strategy, {"repeat": "always"}, None, data, v, atom=atom, load=True,
                            stream=f"loaded-{atom}")
+    for c, m, i in zip(lcases, run_model(lcases), limpl):
+        ck.count("loaded-vs-model")
+        if m != i:
+            ck.mismatch("load", c, m, i)
+            ck.violation(f"the loader marks other parts reducible than its model: {c}: implementation {i[:200]} vs model "
+                         f"{m[:200]} (protected text would be offered for deletion / atoms withheld)",
+                         {"case": c, "impl": i, "model": m})
     r = rng("c04")
     for i in range(60 if quick else 600):
         k = r.randint(5, 40)
